@@ -140,7 +140,29 @@ func genNeg(r *Rng) Sx {
 		accept = "text/html;level=1, " + a + ", */*;q=0.1"
 		other = "text/html;level=1, " + b + ", */*;q=0.1"
 	}
-	return L(Strs(registered), Strs(produces), A(dflt), A(accept), B(r.Pct(10)), A(preset), B(r.Pct(35)), A(other))
+	// the set-up calls of the WebService as a history (9th field): (0 list) is ws.Produces(list...), (1 list) adds a
+	// route whose builder declares that list itself (none when empty). The FIRST route is the one that is asked; what it
+	// produces is what the model's builder makes of the history (Builder.v): its own list, or the last one the service
+	// had declared when it was added - whatever is declared or added afterwards.
+	setup := Ls{}
+	if r.Bool() || len(produces) == 0 {
+		if r.Pct(40) {
+			setup = append(setup, L(0, Strs(r.Subset(negTypes, 40))))
+		}
+		setup = append(setup, L(1, Strs(produces)))
+	} else {
+		if r.Pct(40) {
+			setup = append(setup, L(0, Strs(r.Subset(negTypes, 40))))
+		}
+		setup = append(setup, L(0, Strs(produces)), L(1, Strs(nil)))
+	}
+	for k := r.Intn(3); k > 0; k-- {
+		if r.Pct(60) {
+			setup = append(setup, L(0, Strs(r.Subset(negTypes, 30))))
+		}
+		setup = append(setup, L(1, Strs(r.Subset(negTypes, 20))))
+	}
+	return L(Strs(registered), Strs(produces), A(dflt), A(accept), B(r.Pct(10)), A(preset), B(r.Pct(35)), A(other), setup)
 }
 
 type negValue struct {
@@ -184,31 +206,58 @@ func runNeg(raw Sx) (Sx, Sx) {
 	c := restful.NewContainer()
 	ws := new(restful.WebService)
 	ws.Path("/n")
-	b := ws.GET("/v").To(func(rq *restful.Request, rp *restful.Response) {
-		if preset != "" {
-			rp.AddHeader("Content-Type", preset)
+	var setup []Sx
+	if len(sxList(raw)) > 8 {
+		setup = sxList(sxNth(raw, 8))
+	}
+	addMain := func(own []string) {
+		b := ws.GET("/v").To(func(rq *restful.Request, rp *restful.Response) {
+			if preset != "" {
+				rp.AddHeader("Content-Type", preset)
+			}
+			rp.WriteEntity(negValue{A: 7})
+		})
+		if len(own) > 0 {
+			b.Produces(own...)
 		}
-		rp.WriteEntity(negValue{A: 7})
-	})
-	if len(produces) > 0 {
-		b.Produces(produces...)
+		if hasOther && len(accept)%4 == 1 {
+			// an http middleware in front of the route hands on a request of its own making whose Accept header is another
+			// one: the entity is negotiated with the header the client sent
+			b.Filter(restful.HttpMiddlewareHandlerToFilter(func(next http.Handler) http.Handler {
+				return http.HandlerFunc(func(w http.ResponseWriter, r *http.Request) {
+					r2 := r.Clone(r.Context())
+					if other == "" {
+						r2.Header.Del("Accept")
+					} else {
+						r2.Header.Set("Accept", other)
+					}
+					next.ServeHTTP(w, r2)
+				})
+			}))
+		}
+		ws.Route(b)
 	}
-	if hasOther && len(accept)%4 == 1 {
-		// an http middleware in front of the route hands on a request of its own making whose Accept header is another
-		// one: the entity is negotiated with the header the client sent
-		b.Filter(restful.HttpMiddlewareHandlerToFilter(func(next http.Handler) http.Handler {
-			return http.HandlerFunc(func(w http.ResponseWriter, r *http.Request) {
-				r2 := r.Clone(r.Context())
-				if other == "" {
-					r2.Header.Del("Accept")
-				} else {
-					r2.Header.Set("Accept", other)
-				}
-				next.ServeHTTP(w, r2)
-			})
-		}))
+	if len(setup) == 0 {
+		addMain(produces) // (cases of the corpus written before the set-up history existed)
 	}
-	ws.Route(b)
+	nroutes := 0
+	for _, op := range setup {
+		list := append([]string(nil), sxStrs(sxNth(op, 1))...) // every call gets a slice of its own
+		switch {
+		case sxInt(sxNth(op, 0)) == 0:
+			ws.Produces(list...)
+		case nroutes == 0:
+			addMain(list)
+			nroutes++
+		default:
+			lb := ws.GET("/later" + itoa(nroutes)).To(func(rq *restful.Request, rp *restful.Response) {})
+			if len(list) > 0 {
+				lb.Produces(list...)
+			}
+			ws.Route(lb)
+			nroutes++
+		}
+	}
 	c.Add(ws)
 	var serve func(times int) (int, Ls, Ls, Ls)
 	serveWith := func(accept string, times int) (int, Ls, Ls, Ls) {
@@ -316,7 +365,7 @@ func runNeg(raw Sx) (Sx, Sx) {
 		}
 		rows = append(rows, L(A(v.s), rank))
 	}
-	return L(rows, Strs(registered), Strs(produces), A(dflt), A(accept), B(trace), A(preset), B(compact), A(other)), L(panicked, statuses, cts, decs, traceSame)
+	return L(rows, Strs(registered), Strs(produces), A(dflt), A(accept), B(trace), A(preset), B(compact), A(other), Ls(setup)), L(panicked, statuses, cts, decs, traceSame)
 }
 
 // the distinct elements of a list, sorted by their printed form
